@@ -34,10 +34,18 @@ def run_grammar(args):
         pg = complete.twin_gen(rng)
     elif kw.get("twins") and idx % 8 == 2:
         pg = complete.head_overlap_gen(rng)
+    elif kw.get("gen"):
+        pg = getattr(complete, kw["gen"])(rng)
+    elif idx % 8 == 6:
+        pg = complete.wordbreak_gen(rng)
+    elif idx % 8 == 5:
+        pg = complete.long_candidate_gen(rng)
+    elif idx % 16 == 4:
+        pg = complete.fallback_gen(rng)
     elif kw.get("shared") and idx % 4 == 1:
         pg = complete.shared_gen(rng)
     else:
-        pg = complete.probe_gen(rng, max_depth=rng.choice([2, 3, 3, 4]), **{k: v for k, v in kw.items() if k not in ("twins", "shared")})
+        pg = complete.probe_gen(rng, max_depth=rng.choice([2, 3, 3, 4]), **{k: v for k, v in kw.items() if k not in ("twins", "shared", "gen")})
     text = pg.text()
     rc, out, err = core.run_complgen("bash", text)
     if rc != 0:
@@ -108,6 +116,8 @@ def check_grammars(ctx, n, own="C01", **kw):
                       "wordbreaks": "default" if wb is None else wb, "bash": {"rc": brc, "COMPREPLY": reply}, "spec": want}
                 if own == "C01":
                     judge_candidates(ctx, rp, got, want, spec)
+                elif own == "C09":
+                    judge_fallback(ctx, rp, got, want, spec)
                 else:
                     judge_calls(ctx, rp, pg, log, got, want, spec)
 
@@ -130,6 +140,22 @@ def judge_candidates(ctx, rp, got, want, spec):
     kind = "offers-for-unmatched-line" if want is None else ("nothing-for-matched-line" if got is None else
             ("missing-candidates" if set(want) - set(got or []) else "extra-candidates"))
     ctx.violation(kind, dict(rp, what=f"bash offers {got}, the grammar prescribes {want}"))
+
+
+def judge_fallback(ctx, rp, got, want, spec):
+    """C09, by execution: what bash offers for a `||` grammar is what the grammar prescribes (the candidates of the first
+    branch that has any extending the typed prefix); C01's recorded findings about unfinished words are not judged here"""
+    ctx.count("bash:matched" if want is not None else "bash:unmatched")
+    if got == want:
+        if want:
+            ctx.nontriv((rp["grammar"], tuple(rp["words"]), rp["prefix"], rp["wordbreaks"]))
+        return
+    norm = lambda x: None if x == "N" else x
+    if (spec["lenient_word"] is not None and got == norm(spec["lenient_word"])) or spec["lenient_ambiguous"] or \
+            (spec["lenient_last"] is not None and got == norm(spec["lenient_last"])):
+        ctx.count("bash:not-judged(C01 finding)")
+        return
+    ctx.violation("fallback-candidates-differ-in-bash", dict(rp, what=f"bash offers {got}, the `||` grammar prescribes {want}"))
 
 
 def judge_calls(ctx, rp, pg, log, got, want, spec):
